@@ -42,18 +42,28 @@ Fixpoint somes {A} (l : list (option A)) : list A :=
   match l with [] => [] | Some a :: t => a :: somes t | None :: t => somes t end.
 
 (* ------------------------------------------------------------------ small-matrix algebra *)
-Definition qsum (l : list Qc) : Qc := fold_left Qcplus l 0.
-Definition qprod (l : list Qc) : Qc := fold_left Qcmult l 1.
+(* The field operations with shortcuts for the operands 0 and 1 (most entries of the motion
+   models' matrices): extensionally equal to Qcmult / Qcplus / Qcminus (Proofs/KalmanArith.v:
+   qmul_eq, qadd_eq, qsub_eq) but they skip the gcd that every Qc operation performs. *)
+Definition is0 (x : Qc) : bool := match Qnum (this x) with Z0 => true | _ => false end.
+Definition is1 (x : Qc) : bool :=
+  match Qnum (this x), Qden (this x) with Zpos xH, xH => true | _, _ => false end.
+Definition qmul (x y : Qc) : Qc :=
+  if is0 x then 0 else if is0 y then 0 else if is1 x then y else if is1 y then x else x * y.
+Definition qadd (x y : Qc) : Qc := if is0 x then y else if is0 y then x else x + y.
+Definition qsub (x y : Qc) : Qc := if is0 y then x else x - y.
+Definition qsum (l : list Qc) : Qc := fold_left qadd l 0.
+Definition qprod (l : list Qc) : Qc := fold_left qmul l 1.
 Definition ncols (m : mat) : nat := length (hd [] m).
 Definition col (j : nat) (m : mat) : vec := map (fun r => nth j r 0) m.
 Definition mtrans (m : mat) : mat := map (fun j => col j m) (seq 0 (ncols m)).
 (* np.sum(x[i, k] * y[k, j], axis k) *)
 Definition mmul (x y : mat) : mat :=
-  map (fun r => map (fun j => qsum (map2 Qcmult r (col j y))) (seq 0 (ncols y))) x.
-Definition madd (x y : mat) : mat := map2 (map2 Qcplus) x y.
-Definition msub (x y : mat) : mat := map2 (map2 Qcminus) x y.
-Definition vadd (x y : vec) : vec := map2 Qcplus x y.
-Definition vsub (x y : vec) : vec := map2 Qcminus x y.
+  map (fun r => map (fun j => qsum (map2 qmul r (col j y))) (seq 0 (ncols y))) x.
+Definition madd (x y : mat) : mat := map2 (map2 qadd) x y.
+Definition msub (x y : mat) : mat := map2 (map2 qsub) x y.
+Definition vadd (x y : vec) : vec := map2 qadd x y.
+Definition vsub (x y : vec) : vec := map2 qsub x y.
 (* v[:, np.newaxis] and m[:, 0] *)
 Definition colm (v : vec) : mat := map (fun x => [x]) v.
 Definition uncol (m : mat) : vec := map (fun r => nth 0 r 0) m.
@@ -95,7 +105,7 @@ Definition entry (m : mat) (i j : nat) : Qc := nth j (nth i m []) 0.
 Definition det1 (m : mat) : Qc :=
   match length m with
   | 1%nat => entry m 0 0
-  | n => qsum (map (fun p => qprod (map (fun i => entry m i (nth i p O)) (seq 0 n)) * parity p)
+  | n => qsum (map (fun p => qmul (qprod (map (fun i => entry m i (nth i p O)) (seq 0 n))) (parity p))
                    (permutations (seq 0 n)))
   end.
 
@@ -111,7 +121,7 @@ Definition cofactor1 (m : mat) (i j : nat) : Qc := det1 (map (remove_nth j) (rem
 Definition inv1 (m : mat) : mat :=
   let n := length m in
   let d := det1 m in
-  map (fun i => map (fun j => (cofactor1 m j i * sign_of (Nat.even (i + j))) / d) (seq 0 n)) (seq 0 n).
+  map (fun i => map (fun j => qmul (cofactor1 m j i) (sign_of (Nat.even (i + j))) / d) (seq 0 n)) (seq 0 n).
 Definition det_n (xs : list mat) : list Qc := map det1 xs.
 Definition inv_n (xs : list mat) : list mat := map inv1 xs.
 
